@@ -47,7 +47,32 @@ def parse (line : String) : Option Parsed :=
     | _, _, _, _, _ => none
   | _ => none
 
+def optFlag (s : String) : Option Bool := if s == "t" then some true else if s == "f" then some false else none
+
+def parseGate (line : String) : Option (HTTPCfg × Req) :=
+  match tokens line with
+  | ["gate", m, p, d, r, method, path] =>
+    match bytesOfHex path with
+    | some pb => some ({ minimal := m == "1", pprof := optFlag p, dashboard := optFlag d, remoteAPI := optFlag r },
+                       { connect := method == "CONNECT", path := rawOf pb, authHeader := [], queryToken := [] })
+    | none => none
+  | _ => none
+
+def gateStep (line : String) : String :=
+  match parseGate line with
+  | none => "bad-op"
+  | some (h, req) =>
+    let o := serve (fun _ => false) false (flagsOfConfig h) req
+    match o.status, o.route with
+    | .s401, _ => "model-error"
+    | .s301, _ => "pat=* st=301"
+    | .s404, none => "pat=- st=404"
+    | .s404, some r => s!"pat={strOf r.pat} st=404"
+    | .handler, some r => let P := strOf r.pat; s!"anyof pat={P} st=h | pat={P} st=404 | pat=* st=301"
+    | .handler, none => "model-error"
+
 def step (line : String) : String :=
+  if (tokens line).head? == some "gate" then gateStep line else
   if (tokens line).head? == some "race" then "race ok" else
   match parse line with
   | none => "bad-op"
@@ -72,8 +97,20 @@ def groupOfPath (connect : Bool) (p : Raw) : Option Nat :=
   let sg := segsOf mp
   (routes.find? (fun r => r.grp != 0 && r.whenOn && patMatches r sg.1 sg.2)).map (·.grp)
 
+/-- gating as configured, on the implementation's answer: a path in the area of a group that the
+    CONFIGURATION disables (minimal, or the flag set to false) must answer 404 -/
+def gateSpec (line implOut : String) : String :=
+  match parseGate line, tokens implOut with
+  | some (h, req), [_, st] =>
+    match groupOfPath req.connect req.path with
+    | some g => if !(flagsOfConfig h).on g && st != "st=404" && st != "st=301" then "fail disabled-served-by-config" else "ok"
+    | none => "ok"
+  | _, "panic" :: _ => "fail crashed"
+  | _, _ => "ok"
+
 /-- The property evaluated on the implementation's own answer. -/
 def spec (op : String) (implOut : String) : String :=
+  if (tokens op).head? == some "gate" then gateSpec op implOut else
   if (tokens op).head? == some "race" then
     (if tokens implOut == ["race", "ok"] then "ok" else "fail unauth-served-concurrent") else
   match parse op, tokens implOut with
